@@ -226,11 +226,21 @@ async fn update_provision_state(
 ) {
     if let Ok(provision_state) = provision_shared_state.update_one_state(state).await {
         if provision_state.contains(ProvisionFlags::ALL_READY) {
-            if let Err(e) = provision_shared_state.set_provision_finished(true).await {
-                // log the error and continue
-                logger::write_error(format!(
-                    "update_provision_state::Failed to set provision finished with error: {e}"
-                ));
+            match provision_shared_state
+                .set_provision_finished_if_all_ready()
+                .await
+            {
+                Ok(true) => {}
+                Ok(false) => {
+                    // a key latch reset arrived in between: provision is not finished
+                    return;
+                }
+                Err(e) => {
+                    // log the error and continue
+                    logger::write_error(format!(
+                        "update_provision_state::Failed to set provision finished with error: {e}"
+                    ));
+                }
             }
 
             // write provision success state here
